@@ -1203,7 +1203,10 @@ func runPrepared(sc *lscen) {
 			cancel()
 			desc["connects"] = len(r.events)
 			out.Fail("the client did not stop within 60 s", "consumer-scenario-timeout", desc)
-			<-s.Done()
+			select {
+			case <-s.Done():
+			case <-time.After(5 * time.Second): // a listen loop that is stuck for good is left behind
+			}
 		}
 	} else {
 		desc["connect_error"] = err.Error()
